@@ -2397,6 +2397,12 @@ class x86_mn(x86_mn_base):
             # the mandatory prefix of an MMX/SSE opcode, whatever other
             # (segment, lock, address-size) prefixes are present
             sse_prefix = [_ for _ in read_prefix if _ in mmx_prefixes[1:]]
+            if m.modifs[mmx]:
+                # (opcode, mandatory prefix) pairs that are not instructions
+                p = mmx_set_suffix(m.name, mmx_prefixes.index(
+                    ([0]+sse_prefix)[-1]))
+                if 'INVALID' in p or 'REPZ' in p or 'REPNZ' in p:
+                    return None
 
 
 
